@@ -36,7 +36,7 @@ def T_bool():
 
 
 def T_uint(w, qualified=False):
-    return {"k": "uint", "w": w, "q": bool(qualified)}
+    return {"k": "uint", "w": w, "q": (qualified if qualified in (1, 2) else bool(qualified))}
 
 
 def T_int(w):
@@ -161,14 +161,14 @@ def ty_str(t):
         return "bool"
     if k == "uint":
         if t.get("q") and not is_native(t["w"]):
-            return "arbitrary_int::u%d" % t["w"]
+            return ("::arbitrary_int::u%d" if t.get("q") == 2 else "arbitrary_int::u%d") % t["w"]
         return "u%d" % t["w"]
     if k == "int":
         return "i%d" % t["w"]
     if k == "enum" or k == "nested":
         return t["name"]
     if k == "optenum":
-        return "Option<%s>" % t["name"]
+        return (t.get("opt") or "Option") + "<%s>" % t["name"]
     raise ValueError(k)
 
 
@@ -204,8 +204,10 @@ def attr_str(f):
                 items.append(num(lo))
             else:
                 items.append("%s..=%s" % (num(lo), num(hi)))
-        rng = "[" + ", ".join(items) + "]"
+        rng = "[" + ", ".join(items) + ("," if syn % 11 == 5 else "") + "]"
     acc = f["access"]
+    if acc == "rw" and syn % 5 == 1:
+        acc = "r, w" if (syn // 5) % 2 == 0 else "w, r"  # two specifiers are the union of both
     stride = None
     if f["array"] and f["array"]["stride"] is not None:
         sep = "=" if (syn // 2) % 2 == 0 else ":"
@@ -518,7 +520,7 @@ def split_natural(n):
 
 def fam_abase(tier, seed):
     out = []
-    dense = {1, 2, 3, 7, 9, 12, 24, 33, 48, 65, 127}
+    dense = set(range(1, 17)) | {17, 23, 24, 25, 31, 33, 39, 40, 47, 48, 49, 56, 63, 65, 72, 96, 100, 120, 127}
     for N in NON_NATIVE:
         # (a) overlapping probes: full width, top bit, bottom bit, top-aligned, middle
         fs = [field("full", [(0, N - 1)], T_uint(N), syn=h("ab", N) % SYN)]
@@ -557,6 +559,10 @@ def fam_abase(tier, seed):
                 for hi in range(lo, N):
                     w = hi - lo + 1
                     fs.append(field("f%d_%d" % (lo, hi), [(lo, hi)], T_uint(w), syn=h("abd", N, lo, hi) % SYN))
+                    if w == 1:
+                        fs.append(field("b%d" % lo, [(lo, hi)], T_bool(), syn=h("abdb", N, lo) % SYN))
+                    if is_native(w):
+                        fs.append(field("s%d_%d" % (lo, hi), [(lo, hi)], T_int(w), syn=h("abds", N, lo, hi) % SYN))
                 out.append(struct("abase_dense", "AX%d_%d" % (N, lo), N, fs, family="ABASE"))
     return out
 
@@ -1300,6 +1306,16 @@ def fam_misc(tier, seed):
             form = "const=" if (i + base) % 2 == 0 else "const:"
             out.append(struct("misc_c%d_%d" % (i, base), "K", base, [field("b0", [(0, 0)], T_bool()), field("top", [(base - 1, base - 1)], T_bool())],
                               default={"form": form, "value": val, "cname": cname if cname != "value" else "VALUE"}, family="MISC"))
+    # type path spellings: leading `::`, fully qualified Option
+    o = mk_enum(mod, "PathO", 3, [1, 2, 5], family="MISC")
+    out.append(o)
+    fs = [field("a", [(0, 4)], T_uint(5, qualified=2)), field("b", [(5, 7)], dict(T_enum("PathO", 3, False), opt="core::option::Option")),
+          field("c", [(8, 10)], dict(T_enum("PathO", 3, False), opt="::core::option::Option")), field("d", [(11, 15)], T_uint(5, qualified=1), array={"k": 2, "stride": 8}),
+          field("e", [(32, 34)], dict(T_enum("PathO", 3, False), opt="core::option::Option"), array={"k": 2, "stride": 4})]
+    for dflt in (None, {"form": "=", "value": 0x1234_5678_9ABC}):
+        s = struct(mod, "Paths%s" % ("d" if dflt else "n"), 48, fs, default=dflt, family="MISC")
+        add_const_witnesses(s, seed, maxn=2)
+        out.append(s)
     # zero fields
     out.append(struct(mod, "Empty8n", 8, [], family="MISC"))
     out.append(struct(mod, "Empty8d", 8, [], default={"form": "=", "value": 7}, family="MISC"))
